@@ -253,7 +253,7 @@ def _sym_worker(pid, hname, tier, conn, quick_ms, roots=None):
                     result['fidelity'].append(fw)
             for o in obls:
                 base = _constraints(p, o['snap'])
-                if o['kind'] == 'exception':
+                if o['kind'] == 'exception' or z3.is_true(z3.simplify(o['bad'])):
                     # "this path is reachable": the inputs only have to satisfy the domain and the branch conditions; the
                     # definitions of auxiliary symbols are dropped (a model is replayed on the real code anyway)
                     d_, c_, f_, a_ = o['snap']
